@@ -107,7 +107,8 @@ def _extract_locked(src, config, crate, tdir, out, meta):
         for d in os.listdir(fpd):
             if d.startswith(crate.replace("_", "-") + "-") or d.startswith(crate + "-"):
                 shutil.rmtree(os.path.join(fpd, d), ignore_errors=True)
-    tmp_out = out + ".tmp.%d" % os.getpid()
+    import uuid
+    tmp_out = out + ".tmp.%d.%s" % (os.getpid(), uuid.uuid4().hex[:8])
     if os.path.exists(tmp_out):
         os.unlink(tmp_out)
     env = dict(os.environ)
